@@ -62,8 +62,10 @@ def run(ctx):
         ctx.ob('primitive-confinement', cname, True, 'only propositional primitives are reachable', py.where(ci.module, ci.node))
     build_subst_contract(ctx, py)
     # the resolution front-end advertises clause_conjunctionto_pattern(clauses): nesting of the conjunction of trivial-clause proofs
-    from .c09 import fold_direction
+    from .c09 import conj_form_contract, fold_direction
     fold_direction(ctx, py)
+    # to_conj_form advertises, for its two proofs, `input -> form` and `form -> input`: checked as the inductive step of its recursion
+    conj_form_contract(ctx, py)
     # a reference lemma that left the analysed subset fails the run closed - unless a violation already explains it
     if broken and not any(not o['ok'] for o in ctx.obligations):
         ctx.require(False, broken[0])
